@@ -294,6 +294,7 @@ COMPONENTS = {
         'spec_files': ['LimitImpl.tla', 'MC_LimitImpl.tla', 'Limit.tla'],
         'mc': {'quick': [{'cfg': 'MC_LimitImpl.cfg', 'module': 'MC_LimitImpl'}], 'thorough': [{'cfg': 'MC_LimitImpl.cfg', 'module': 'MC_LimitImpl'}]},
         'trace_module': 'Limit', 'trace_cfg_tmpl': 'Trace_Limit.cfg.tmpl',
+        'apalache': {'module': 'apalache/LimitInd.tla', 'cinit': 'ConstInit', 'init': 'Init', 'indinit': 'IndInit', 'inv': 'IndInv'},
         'harness': 'limit',
         'random': {'quick': [{'runs': 0}], 'thorough': [{'runs': 0}]},
         'corrupt': _limit_corrupt,
